@@ -86,6 +86,10 @@ def op_line(op):
         return "setcap %d" % op[1]
     if kind == "fail":
         return "fail" + "".join(" %d" % r for r in op[1])
+    if kind == "drop":
+        # the user lets go of an object: not an event of the model - rendered as the (unchanged)
+        # fault setting, which the model takes as a no-op
+        return "fail" + "".join(" %d" % r for r in op[2])
     if kind == "call":
         _, h, name, *args = op
         parts = ["call", h, name]
@@ -208,6 +212,11 @@ def apply_call(obj, name, args):
     if name in ("dreset", "lreset"):
         return obj.reset(args[0])
     if name == "dgetitem":
+        if _attr_form(obj, args[0]) and _form(args, 3) == 0:
+            try:
+                return getattr(obj, args[0])
+            except AttributeError:
+                raise KeyError(args[0])      # the attribute form of KeyError
         return obj[args[0]]
     if name == "dcontains":
         return args[0] in obj
@@ -291,7 +300,8 @@ def _attr_form(obj, key):
     if not any(c.__name__ == "AttrDict" for c in type(obj).__mro__):
         return False
     prot = getattr(type(obj), "_PROTECTED_KEYS", ())
-    return isinstance(key, str) and not key.startswith("__") and key not in prot
+    return (isinstance(key, str) and not key.startswith("__") and key not in prot
+            and not hasattr(type(obj), key) and key not in getattr(obj, "__dict__", {}))
 
 
 def _iterable_form(v, k):
@@ -397,6 +407,9 @@ def install_write_faults(ns):
     _FAULTS_INSTALLED.append(orig)
 
 
+DROPPED = type("Dropped", (), {"__repr__": lambda self: "<dropped>"})()
+
+
 class Runner:
     """Executes structured ops against the real classes of one family and renders
     the same lines the Lean driver prints."""
@@ -467,7 +480,10 @@ class Runner:
 
     def target(self, h):
         if h[0] == "o":
-            return self.objs[int(h[1:])]
+            o = self.objs[int(h[1:])]
+            if o is DROPPED:
+                raise IndexError("object was dropped")
+            return o
         return self.handles[int(h[1:])]
 
     # ---- execution
@@ -495,6 +511,14 @@ class Runner:
             install_write_faults(self.ns)
             FAILING.clear()
             FAILING.update(self.world.path(r) for r in op[1])
+            return ["ok", self.state_line()]
+        if kind == "drop":
+            # the program lets go of root object k (its last reference, unless a child handle obtained
+            # from it is still held) and the garbage collector runs: whatever the library still owes
+            # this object - e.g. the flush of its buffered data - it must do without the user's help
+            import gc
+            self.objs[op[1]] = DROPPED
+            gc.collect()
             return ["ok", self.state_line()]
         if kind in ("enter", "exit", "center", "cexit", "setcap"):
             try:
